@@ -2,8 +2,58 @@
 
 package forward
 
+import (
+	"strings"
+	"time"
+
+	"github.com/bluenviron/mediamtx/internal/conf"
+	"github.com/bluenviron/mediamtx/internal/logger"
+)
+
 // VerifC42ResolveDest exposes the unexported resolveDest to the C42 correspondence harness, which
 // lives in package staticsources (one test binary drives both functions).
 func VerifC42ResolveDest(dest string, pathName string, matches []string) string {
 	return resolveDest(dest, pathName, matches)
+}
+
+// ---- the glue: the URL a REAL DestHandler connects to (round 4) ----
+
+type verifC42DestLog struct{ ch chan string }
+
+// Log catches DestHandler.runOnce's "forwarding to '<resolved destination>'" line (the argument is
+// sanitizeDestURL(resolvedDest): identity for URLs without credentials, fragment or characters that
+// net/url re-encodes, which is what the harness generates).
+func (l verifC42DestLog) Log(_ logger.Level, format string, args ...any) {
+	if strings.HasSuffix(format, "forwarding to '%s'") && len(args) > 0 {
+		if s, ok := args[len(args)-1].(string); ok {
+			select {
+			case l.ch <- s:
+			default:
+			}
+		}
+	}
+}
+
+// VerifC42DestHandlerURL creates a real DestHandler the way Manager does (struct + initialize()), starts
+// it and returns the destination its first run announces; the connection attempt itself goes to a closed
+// loopback port and fails at once.
+func VerifC42DestHandlerURL(dest string, pathName string, matches []string) string {
+	l := verifC42DestLog{ch: make(chan string, 8)}
+	h := &DestHandler{
+		Conf:         conf.ForwardDest{Dest: dest},
+		ReadTimeout:  conf.Duration(time.Second),
+		WriteTimeout: conf.Duration(time.Second),
+		PathName:     pathName,
+		Matches:      matches,
+		Parent:       l,
+	}
+	h.initialize()
+	h.start(nil)
+	got := "<no forwarding line>"
+	select {
+	case got = <-l.ch:
+	case <-time.After(20 * time.Second):
+	}
+	h.stop()
+	return got
 }
